@@ -19,6 +19,7 @@ type layout struct {
 	ok         bool
 	reason     string
 	head, tail uintptr
+	wide       bool // head/tail are 64-bit cursors
 	values     uintptr
 	itemSize   uintptr
 	posOff     uintptr
@@ -40,11 +41,18 @@ func probe() (l layout) {
 		}
 		return f, true
 	}
+	wide := false
 	h, ok1 := get("head", reflect.Uint32)
 	tl, ok2 := get("tail", reflect.Uint32)
+	if !ok1 || !ok2 {
+		// 64-bit cursors: the state after k < 2^32 pairs has the same numbers
+		h, ok1 = get("head", reflect.Uint64)
+		tl, ok2 = get("tail", reflect.Uint64)
+		wide = true
+	}
 	v, ok3 := get("values", reflect.Slice)
 	if !ok1 || !ok2 || !ok3 {
-		return layout{reason: "fields head/tail (uint32) and values (slice) not found"}
+		return layout{reason: "fields head/tail (uint32 or uint64) and values (slice) not found"}
 	}
 	it := v.Type.Elem()
 	if it.Kind() != reflect.Struct {
@@ -54,7 +62,7 @@ func probe() (l layout) {
 	if !ok || p.Type.Kind() != reflect.Uint32 {
 		return layout{reason: "slot field pos (uint32) not found"}
 	}
-	return layout{ok: true, head: h.Offset, tail: tl.Offset, values: v.Offset, itemSize: it.Size(), posOff: p.Offset}
+	return layout{ok: true, head: h.Offset, tail: tl.Offset, wide: wide, values: v.Offset, itemSize: it.Size(), posOff: p.Offset}
 }
 
 type sliceHeader struct {
@@ -65,14 +73,22 @@ type sliceHeader struct {
 
 // State is the private state of a ring: head, tail and the slot sequence numbers.
 type State struct {
-	Head, Tail uint32
-	Pos        []uint32
+	Head, Tail     uint32
+	HeadHi, TailHi uint32 // upper halves when the cursors are 64 bits wide
+	Pos            []uint32
 }
 
 // Read returns the private state (only valid if Usable()).
 func Read(r *ringz.SyncRing[int]) State {
 	base := unsafe.Pointer(r)
-	s := State{Head: *(*uint32)(unsafe.Add(base, lay.head)), Tail: *(*uint32)(unsafe.Add(base, lay.tail))}
+	var s State
+	if lay.wide {
+		s = State{Head: uint32(*(*uint64)(unsafe.Add(base, lay.head))), Tail: uint32(*(*uint64)(unsafe.Add(base, lay.tail)))}
+		s.HeadHi = uint32(*(*uint64)(unsafe.Add(base, lay.head)) >> 32)
+		s.TailHi = uint32(*(*uint64)(unsafe.Add(base, lay.tail)) >> 32)
+	} else {
+		s = State{Head: *(*uint32)(unsafe.Add(base, lay.head)), Tail: *(*uint32)(unsafe.Add(base, lay.tail))}
+	}
 	sh := (*sliceHeader)(unsafe.Add(base, lay.values))
 	for i := 0; i < sh.len; i++ {
 		s.Pos = append(s.Pos, *(*uint32)(unsafe.Add(sh.data, uintptr(i)*lay.itemSize+lay.posOff)))
@@ -84,12 +100,20 @@ func Read(r *ringz.SyncRing[int]) State {
 // counted from a fresh ring.
 func Seek(r *ringz.SyncRing[int], k uint32) {
 	base := unsafe.Pointer(r)
-	*(*uint32)(unsafe.Add(base, lay.head)) = k
-	*(*uint32)(unsafe.Add(base, lay.tail)) = k
+	if lay.wide {
+		*(*uint64)(unsafe.Add(base, lay.head)) = uint64(k)
+		*(*uint64)(unsafe.Add(base, lay.tail)) = uint64(k)
+	} else {
+		*(*uint32)(unsafe.Add(base, lay.head)) = k
+		*(*uint32)(unsafe.Add(base, lay.tail)) = k
+	}
 	sh := (*sliceHeader)(unsafe.Add(base, lay.values))
-	mask := uint32(sh.len - 1)
+	n := uint32(sh.len)
 	for i := 0; i < sh.len; i++ {
-		*(*uint32)(unsafe.Add(sh.data, uintptr(i)*lay.itemSize+lay.posOff)) = k + ((uint32(i) - k) & mask)
+		// slot i is free for the next position >= k that is mapped to it (any
+		// capacity: for a power of two this is k + ((i-k) & mask))
+		d := (uint32(i) + n - k%n) % n
+		*(*uint32)(unsafe.Add(sh.data, uintptr(i)*lay.itemSize+lay.posOff)) = k + d
 	}
 }
 
@@ -119,15 +143,15 @@ func Usable(reqCap int) (bool, string) {
 		}()
 		honest := ringz.NewSync[int](reqCap)
 		c := honest.Cap()
-		if c <= 0 || c&(c-1) != 0 {
-			whyNot = "capacity is not a power of two"
+		if c <= 0 {
+			whyNot = "capacity is not positive"
 			return false
 		}
 		for k := 0; k <= 3*c+1; k++ {
 			s := ringz.NewSync[int](reqCap)
 			Seek(&s, uint32(k))
 			a, b := Read(&honest), Read(&s)
-			if a.Head != b.Head || a.Tail != b.Tail || len(a.Pos) != len(b.Pos) {
+			if a.Head != b.Head || a.Tail != b.Tail || a.HeadHi != b.HeadHi || a.TailHi != b.TailHi || len(a.Pos) != len(b.Pos) {
 				whyNot = fmt.Sprintf("seek(%d) differs from an honest ring: %v vs %v", k, b, a)
 				return false
 			}
